@@ -331,6 +331,9 @@ def corpus():
                           C("B", True, None), C("Only", False, 3, [("b", ("cls", 3))]), C("Loop", False, 0, [("b", ("cls", 3))], weight=1)], 0, [1, 2, 4, 5, 3]))
     out.append(gram.Spec([C("A0", True, None), C("Lit", False, 0, [], weight=0.5), C("Pair", False, 0, [("l", ("cls", 0)), ("r", ("cls", 0))], weight=0.25),
                           C("Stuck", False, 0, [("s", ("cls", 3))], weight=0.25)], 0, [1, 2, 3]))
+    # a production that is switched off (weight 0) beside weighted siblings: it stays switched off whatever maps programs from this grammar
+    out.append(gram.Spec([C("A0", True, None), C("Lit", False, 0, [("k", "int")], weight=3), C("Legacy", False, 0, [("k", "int")], weight=0),
+                          C("Neg", False, 0, [("e", ("cls", 0))], weight=1)], 0, [1, 2, 3]))
     # an abstract symbol WITHOUT productions (an unimplemented extension point) used as a field type: operations that
     # meet it fail, and must leave the grammar as it was
     out.append(gram.Spec([C("A0", True, None), C("Leaf", False, 0, [("k", ("ann", "int", ("intRange", 0, 3)))]), C("Plugin", True, None),
@@ -353,6 +356,10 @@ def run(h: Harness):
             # production weights (stored on the classes; every grammar over the same classes re-normalises them)
             for i, c in enumerate(spec.classes):
                 if c.parent is not None and rng.random() < 0.6:
-                    c.weight = rng.choice([1, 2, 3, 0.5, 0.25])
+                    c.weight = rng.choice([1, 2, 3, 0.5, 0.25, 0])
+            for a in range(len(spec.classes)):      # (a rule whose registered productions are ALL switched off cannot be normalised)
+                kids = [c for i, c in enumerate(spec.classes) if c.parent == a and (i in spec.considered or c.abstract)]
+                if kids and all(c.weight is not None and c.weight == 0 for c in kids):
+                    kids[0].weight = 2
             h.count("weighted-grammar")
         history(h, spec, rng)
